@@ -123,6 +123,10 @@ pub fn check(c: &Case) -> Outcome {
                     if k + 2 < m && (h - h0).abs() > 8.0 * ulp(w[1].abs().max(w[0].abs())) + 4.0 * ulp(h0) {
                         return Outcome::viol(format!("{}: RK4 interval {} has length {:e}, not the fixed step {:e}", desc, k, h, h0));
                     }
+                    // the final step that lands on xend: shorter, or stretched by at most 1 %
+                    if k + 2 == m && h > 1.01 * h0 * (1.0 + 1e-12) + 8.0 * ulp(w[1].abs().max(w[0].abs())) {
+                        return Outcome::viol(format!("{}: RK4 final interval has length {:e} = {:.4} x the fixed step {:e} (at most 1 % stretch allowed)", desc, h, h / h0, h0));
+                    }
                 }
             }
             first_checked = true;
